@@ -40,7 +40,7 @@ ASSUMPTIONS = [
     "write-side stream faults are out of scope of the statement (recorded only)",
 ]
 
-ALPHABET = ["a", "b", " ", "\t", "\n", "\n", "\r\n", "\r\n", "\r", "\v", "\f", " ", "\u2028", "x y", "  ", "\n\n", "\r\n\r\n", "é"]
+ALPHABET = ["a", "b", " ", "\t", "\n", "\n", "\r\n", "\r\n", "\r", "\v", "\f", " ", "\u2028", "x y", "  ", "\n\n", "\r\n\r\n", "é", "<td>", "&", "'"]
 # characters str.splitlines() (and universal-newline readers) treat as line boundaries but that are NOT terminators here:
 # inside a line they are content (whitespace for Trim when trailing), and they never end a line for the limiter
 EXOTIC = ["\x1c", "\x1d", "\x1e", "\x85", "\u2028", "\u2029", "\v", "\f", "\r", "\xa0", "\u3000", "\u200b", "\x1f", "\u2003", "\x00", "\ufeff"]
